@@ -413,6 +413,65 @@ def r15_9_frame_classification(ctx):
     ctx.require_min("R15.9", 10)
 
 
+def r15_10_router_results_pairing(ctx):
+    ctx.rule("R15.10", "a router's results pair each program with its own text and its own map: Router._build_impl compiles the approval and the clear-state program each with its own file name and hands each compilation's text and source mapper to the field of the same name; _RouterBundle.get_results asks each mapper for the map of its own text - evaluated with distinguishable stand-ins for the two programs")
+    rc = ctx.model.find_class("Router", "pyteal.ast.router")
+    bi = q.need(rc.methods.get("_build_impl"), "Router._build_impl vanished")
+    rb = ctx.model.find_class("_RouterBundle", "pyteal.ast.router")
+    gr = q.need(rb.methods.get("get_results"), "_RouterBundle.get_results vanished")
+    ctx.analysed(bi.fq, gr.fq)
+
+    # --- _build_impl: which compilation feeds which field
+    def compilation(prog):
+        def impl(**kw):
+            return Sym(f"bundle:{prog}", attrs={"teal": f"TEAL[{prog},file={kw.get('teal_filename')}]", "sourcemapper": Sym(f"mapper:{prog}", attrs={"of": prog, "file": kw.get("teal_filename")})})
+        return Sym(f"compilation:{prog}", methods={"_compile_impl": impl})
+
+    inp = Sym("input", attrs={"version": 8, "optimize": None, "with_sourcemaps": True, "approval_filename": "approval.teal", "clear_filename": "clear.teal", "pcs_in_sourcemaps": False, "algod_client": None, "annotate_teal": False, "annotate_teal_headers": False, "annotate_teal_concise": True},
+              methods={"get_compilation": lambda prog: compilation(prog)})
+    ctxmgr = Sym("cleaning", methods={"__enter__": lambda: None, "__exit__": lambda *a: False})
+    selfs = Sym("self:Router", methods={"_cleaning_context": lambda: ctxmgr, "_build_program": lambda **kw: ("AP", "CSP", "CONTRACT")})
+
+    def oracle(e, me):
+        if u(e) == "_RouterBundle":
+            return lambda **kw: dict(kw)
+        raise Unknown()
+
+    try:
+        got, _ = run_function(bi.node, {"self": selfs, "input": inp}, oracle, bi.fq, permissive=True)
+    except Raised as r:
+        got = None
+        ctx.bad("R15.10", "_build_impl", f"raises {r.exc_text[:60]}", bi.where)
+    if isinstance(got, dict):
+        want = {"approval_program": "AP", "clear_program": "CSP", "abi_contract": "CONTRACT", "approval_teal": "TEAL[AP,file=approval.teal]", "clear_teal": "TEAL[CSP,file=clear.teal]"}
+        for k, v in want.items():
+            ctx.check(got.get(k) == v, "R15.10", f"_build_impl:{k}", f"the bundle's `{k}` is {got.get(k)!r}; it must be {v!r}", bi.where, fact={"value": repr(got.get(k))[:60]})
+        for k, prog, fn in (("approval_sourcemapper", "AP", "approval.teal"), ("clear_sourcemapper", "CSP", "clear.teal")):
+            m = got.get(k)
+            ok = isinstance(m, Sym) and m.attrs.get("of") == prog and m.attrs.get("file") == fn
+            ctx.check(ok, "R15.10", f"_build_impl:{k}", f"the bundle's `{k}` is the mapper of {getattr(m, 'attrs', {}).get('of')!r} built for file {getattr(m, 'attrs', {}).get('file')!r}; it must be the one of {prog} for {fn}", bi.where, fact={})
+
+    # --- get_results: each mapper is asked for the map of its own text
+    for have_a, have_c in ((True, True), (True, False), (False, True), (False, False)):
+        mk = lambda tag: Sym(f"mapper:{tag}", methods={"get_sourcemap": lambda teal, tag=tag: ("map", tag, teal)})
+        bundle = Sym("self:bundle", attrs={"approval_teal": "A-TEAL", "clear_teal": "C-TEAL", "abi_contract": "CONTRACT", "approval_sourcemapper": mk("A") if have_a else None, "clear_sourcemapper": mk("C") if have_c else None})
+
+        def oracle2(e, me):
+            if u(e) == "RouterResults":
+                return lambda **kw: dict(kw)
+            raise Unknown()
+
+        construct = f"get_results[approval map {'on' if have_a else 'off'}, clear map {'on' if have_c else 'off'}]"
+        try:
+            res, _ = run_function(gr.node, {"self": bundle}, oracle2, gr.fq, permissive=True)
+        except Raised as r:
+            ctx.bad("R15.10", construct, f"raises {r.exc_text[:60]}", gr.where)
+            continue
+        want = {"approval_teal": "A-TEAL", "clear_teal": "C-TEAL", "abi_contract": "CONTRACT", "approval_sourcemap": ("map", "A", "A-TEAL") if have_a else None, "clear_sourcemap": ("map", "C", "C-TEAL") if have_c else None}
+        ctx.check(res == want, "R15.10", construct, f"results {res!r}; expected {want!r}", gr.where, fact={})
+    ctx.require_min("R15.10", 10)
+
+
 def run(ctx):
     r15_4_vlq(ctx)
     r15_5_r3_json(ctx)
@@ -425,6 +484,7 @@ def run(ctx):
     _c18.r18_1_annotations_delegate(ctx)  # one comment op per line as the source mapper counts lines (shared with C18)
     r15_8_no_shared_expression_objects(ctx)
     r15_9_frame_classification(ctx)
+    r15_10_router_results_pairing(ctx)
     from rules.lowering_sem import r15_7_relowering
 
     r15_7_relowering(ctx)
